@@ -46,8 +46,12 @@ def check(ctx):
             f1 = rng.normal(size=(n, P.N, 3))
             f2 = rng.normal(size=(n, P.N, 3))
             descr = {"cell": P.sc["name"], "orders": list(orders), "n_snap": n, "n_coef": int(ncoef)}
-            base1 = fit(P, orders, d, f1, 100)
-            base2 = fit(P, orders, d, f2, 100)
+            try:
+                base1 = fit(P, orders, d, f1, 100)
+                base2 = fit(P, orders, d, f2, 100)
+            except np.linalg.LinAlgError:
+                ctx.count("skipped-singular")
+                continue
             rep = {**P.describe(), "orders": list(orders), "disps": d.tolist(), "f1": f1.tolist(), "f2": f2.tolist()}
 
             def judge(name, got, exp, extra=None):
